@@ -7,6 +7,7 @@ use vmodel::engine::{Failure, ShardCtx, Tier, Verdict};
 
 pub mod common;
 pub mod c04;
+pub mod c07;
 
 pub enum PrepError {
     Violation(Failure),
@@ -49,7 +50,7 @@ pub const DEFAULT: Check = Check {
 };
 
 pub fn all() -> Vec<Check> {
-    vec![c04::check()]
+    vec![c04::check(), c07::check()]
 }
 
 pub fn find(id: &str) -> Option<Check> {
